@@ -340,17 +340,29 @@ func (fr *Frame) loopEnv(li *loopInfo, phiVal func(*ssa.Phi) Val) map[string]Val
 			idx = phi
 		}
 	}
-	if idx != nil && idx.Comment == "rangeindex" {
-		// $range: the slice being ranged over (the operand indexed by the range index in the loop body)
+	if idx != nil {
+		// $range: the slice being ranged over - the operand indexed by the range index in the loop body; for a
+		// hand-written index loop (for i := 0; i < len(s); i++ { … s[i] … }) the slice indexed by the loop variable,
+		// so that a contract written for one form of the loop still binds to the other
 		for b := range li.body {
 			for _, ins := range b.Instrs {
 				ia, ok := ins.(*ssa.IndexAddr)
 				if !ok {
 					continue
 				}
-				if bo, ok := ia.Index.(*ssa.BinOp); ok && bo.X == ssa.Value(idx) {
+				hit := false
+				if idx.Comment == "rangeindex" {
+					if bo, ok := ia.Index.(*ssa.BinOp); ok && bo.X == ssa.Value(idx) {
+						hit = true
+					}
+				} else if ia.Index == ssa.Value(idx) {
+					hit = true
+				}
+				if hit {
 					if v, ok := fr.vals[ia.X]; ok {
-						vars["$range"] = v
+						if _, dup := vars["$range"]; !dup {
+							vars["$range"] = v
+						}
 					}
 				}
 			}
